@@ -25,14 +25,14 @@ import (
 type FieldKind int
 
 const (
-	FScalar   FieldKind = iota // int/bool/float/Ref/opaque scalar array
-	FSlot                      // one nodeRef
-	FSlotArr                   // [N]nodeRef
-	FByteArr                   // [N]byte
-	FBytePtr                   // *byte
-	FStruct                    // nested struct (flattened with prefix)
-	FIface                     // interface-typed field (abstract identity)
-	FSlice                     // slice-typed field (obj/off/len/cap arrays)
+	FScalar  FieldKind = iota // int/bool/float/Ref/opaque scalar array
+	FSlot                     // one nodeRef
+	FSlotArr                  // [N]nodeRef
+	FByteArr                  // [N]byte
+	FBytePtr                  // *byte
+	FStruct                   // nested struct (flattened with prefix)
+	FIface                    // interface-typed field (abstract identity)
+	FSlice                    // slice-typed field (obj/off/len/cap arrays)
 )
 
 type FieldInfo struct {
@@ -101,9 +101,12 @@ func baseTypeName(t types.Type) string {
 	return ""
 }
 
-func isNodeRef(t types.Type) bool   { return baseTypeName(t) == "nodeRef" && isStruct(t) }
-func isStruct(t types.Type) bool    { _, ok := t.Underlying().(*types.Struct); return ok }
-func isUnsafePtr(t types.Type) bool { b, ok := t.Underlying().(*types.Basic); return ok && b.Kind() == types.UnsafePointer }
+func isNodeRef(t types.Type) bool { return baseTypeName(t) == "nodeRef" && isStruct(t) }
+func isStruct(t types.Type) bool  { _, ok := t.Underlying().(*types.Struct); return ok }
+func isUnsafePtr(t types.Type) bool {
+	b, ok := t.Underlying().(*types.Basic)
+	return ok && b.Kind() == types.UnsafePointer
+}
 func isByteType(t types.Type) bool {
 	b, ok := t.Underlying().(*types.Basic)
 	return ok && (b.Kind() == types.Uint8)
